@@ -79,6 +79,7 @@ def obligations(tier):
     if is_open:
         obs.append(Ob("L1.dirty_gate[known: X column blank]", mod, "dirty_gate", {"n": 1, "k": [0, 0, 0], "only_blank_x": True},
                       expect="known", finding=KEY_BLANK_X, timeout=t))
+    obs.append(Ob("L1.dirty_gate_hg", mod, "dirty_gate_hg", {}, timeout=t, bounds="1..2 lines '<letter> <path>', letters MAR!?"))
     obs.append(Ob("L1.clean_tree", mod, "clean_tree_passes", {}, timeout=60))
     obs.append(Ob("twin.some_exit", mod, "twin_some_exit", {}, expect="refute", timeout=60))
     obs.append(Ob("twin.some_pass", mod, "twin_some_pass", {}, expect="refute", timeout=60))
